@@ -95,6 +95,23 @@ func (c LabelCheck) checkRecordingRule(entry discovery.Entry) (problems []Proble
 	}
 
 	val := entryLabels.GetValue(c.keyRe.original)
+	if (val == nil || val.Value == "") && entry.Rule.RecordingRule.Labels == nil {
+		// All labels are inherited from the group, there is no labels key on the rule to point at.
+		if c.isRequired {
+			problems = append(problems, Problem{
+				Anchor:   AnchorAfter,
+				Lines:    entry.Rule.Lines,
+				Reporter: c.Reporter(),
+				Summary:  "required label not set",
+				Details:  maybeComment(c.comment),
+				Severity: c.severity,
+				Diagnostics: []diags.Diagnostic{
+					WholeRuleDiag(entry.Rule, fmt.Sprintf("`%s` label is required.", c.keyRe.original)),
+				},
+			})
+		}
+		return problems
+	}
 	if val == nil || val.Value == "" {
 		if c.isRequired {
 			problems = append(problems, Problem{
